@@ -1,6 +1,7 @@
 import VibeProof.Lemmas.Join
 import VibeProof.Model.Sql
 import VibeProof.Lemmas.Reindex
+import VibeProof.Generated.Consts
 /-
 C05 — join ordering, join algorithms and subquery rewrites preserve query meaning.
 
@@ -613,6 +614,33 @@ theorem C05_common_equality_needed :
   refine ⟨fun a => a.headD .null, fun b => b.headD .null,
     fun row => eqTrue ((row[0]?).getD .null) ((row[1]?).getD .null) || eqTrue ((row[0]?).getD .null) ((row[2]?).getD .null),
     [[.int 1]], [[.int 5, .int 1]], ?_⟩
+  decide
+
+/-! ### which subquery clauses block the IN / EXISTS → join conversion -/
+
+/-- the conversion keeps FROM, the select item and WHERE of the subquery: every other clause that
+changes which rows the subquery returns must block it -/
+def requiredGuards : String → List String
+  | "try_convert_in_to_join_parts" => ["group_by", "having", "limit", "offset", "set_operation"]
+  | "plain_subquery_parts" => ["group_by", "having", "limit", "offset", "set_operation"]
+  | "try_convert_exists_to_join" => ["group_by", "having", "set_operation"]
+  | _ => ["NOT-FOUND"]
+
+/-- optimizer/subquery_to_join.rs as it is in the tree now: each conversion function tests at least
+the clauses it must (`subquery.<clause>.is_some()`); a dropped test (seeded C08-3 dropped OFFSET)
+breaks this `decide` -/
+theorem C05_join_conversion_guards :
+    Generated.c05JoinConversionGuards.all (fun fg => (requiredGuards fg.1).all (fun g => fg.2.contains g)) = true ∧
+    Generated.c05JoinConversionGuards.length = 3 := by
+  decide
+
+/-- why OFFSET (or LIMIT) must block it: the semi join over the whole table differs from IN over the
+slice — kernel-level witness on the model -/
+example :
+    let left : List Row := [[.int 1], [.int 2], [.int 3]]
+    let right : List Row := [[.int 1], [.int 2], [.int 3]]
+    hashSemi (fun r => r.headD .null) (fun r => r.headD .null) left right ≠
+    hashSemi (fun r => r.headD .null) (fun r => r.headD .null) left (right.drop 2) := by
   decide
 
 /-! ### wrapping a table in a derived table -/
